@@ -219,6 +219,22 @@ def docstring_readback_ok(i):
     return ns["Doc"].__doc__ == desc and ns["Doc"].description == desc and ns["Doc"] == cls
 
 
+def desc_dedupe_ok(d1, d2):
+    """two same-titled, same-shaped object schemas with different descriptions keep their own descriptions"""
+    from vf.common import parse_s, serialize_json
+
+    def obj(d):
+        return {"type": "object", "title": "Addr", "description": d, "properties": {"n": {"type": "integer"}}}
+
+    root = parse_s({"type": "object", "title": "Root", "properties": {"p": obj(d1), "q": obj(d2)}})
+    cp, cq = root.properties["p"].element, root.properties["q"].element
+    if cp.description != d1 or cq.description != d2:
+        return False
+    J = serialize_json(root)
+    got = sorted(str(x.get("description")) for x in J.get("definitions", {}).values())
+    return got == sorted({d1, d2}) if d1 != d2 else got == [d1]
+
+
 def desc_json_ok(desc):
     from vf.common import parse_s, serialize_json
 
@@ -282,6 +298,8 @@ return default_ok({S}, d, {loc}, {jloc}, {nd})
     hs.append(mk("c07_docstring__reach", "s: str", ["1 <= len(s) <= 3"] + excl, "return not docstring_ok(s, True)", kind="witness", timeout=30, group="description"))
     hs.append(mk("c07_docstring_readback_pool", "i: int", [f"0 <= i < {len(DESC_POOL)}"], f"return docstring_readback_ok(concretize_int(i, 0, {len(DESC_POOL) - 1}))", timeout=120, group="description",
                  covers="descriptions with leading/trailing whitespace, indentation, tabs, blank lines: generated class reads back exactly the description (exec)"))
+    hs.append(mk("c07_description_dedupe", "i: int, j: int", ["0 <= i < 4", "0 <= j < 4"], "pool = ('first', 'second', '', 'First')\nreturn desc_dedupe_ok(pool[concretize_int(i, 0, 3)], pool[concretize_int(j, 0, 3)])", timeout=120, group="description",
+                 covers="same title + same shape + different descriptions: both descriptions survive parsing and JSON serialization"))
     hs.append(mk("c07_description_json", "s: str", ["len(s) <= 3"], "return desc_json_ok(s)", timeout=60, group="description"))
     return hs
 
